@@ -18,6 +18,8 @@ package keeper
 //@ instances sender, recipient, tokenIn.Denom, routes[0].TokenOutDenom, routes[1].TokenOutDenom
 //@ ensures C04/single-hop-exact-in-settles-as-requested: err == nil && len(routes) == 1 && isUser(sender) && isUser(recipient) ==> tokenOutAmount >= tokenOutMinAmount && bal(ctx, sender, tokenIn.Denom) == old(bal(ctx, sender, tokenIn.Denom)) - tokenIn.Amount && bal(ctx, recipient, routes[0].TokenOutDenom) >= old(bal(ctx, recipient, routes[0].TokenOutDenom)) + tokenOutAmount
 //@ ensures C04/two-hop-exact-in-settles-as-requested: err == nil && len(routes) == 2 && isUser(sender) && isUser(recipient) && sender != recipient ==> tokenOutAmount >= tokenOutMinAmount && bal(ctx, sender, tokenIn.Denom) == old(bal(ctx, sender, tokenIn.Denom)) - tokenIn.Amount && bal(ctx, recipient, routes[1].TokenOutDenom) >= old(bal(ctx, recipient, routes[1].TokenOutDenom)) + tokenOutAmount
+//@ forall d Str
+//@ ensures C01/each-hop-works-on-the-stored-pool: true
 
 //@ func (Keeper).RouteExactAmountOut
 //@ modifies world
@@ -28,6 +30,8 @@ package keeper
 //@ ensures C02/total-shares-track-supply: shareGap(ctx, p) == old(shareGap(ctx, p))
 //@ instances sender, recipient, tokenOut.Denom
 //@ ensures C04/single-hop-exact-out-settles-as-requested: err == nil && len(routes) == 1 && isUser(sender) && isUser(recipient) ==> tokenInAmount <= tokenInMaxAmount && bal(ctx, sender, routes[0].TokenInDenom) == old(bal(ctx, sender, routes[0].TokenInDenom)) - tokenInAmount && bal(ctx, recipient, tokenOut.Denom) >= old(bal(ctx, recipient, tokenOut.Denom)) + tokenOut.Amount
+//@ forall d Str
+//@ ensures C01/each-hop-works-on-the-stored-pool: true
 
 //@ func (Keeper).CalcSwapEstimationByDenom
 //@ modifies module:amm
@@ -70,6 +74,10 @@ package keeper
 //@ requires sender != modAddr("commitment")
 //@ ensures C02/total-shares-track-supply: err == nil ==> shareGap(ctx, p) == old(shareGap(ctx, p))
 //@ ensures C02/minted-shares-go-into-custody: err == nil ==> sharesOutsideCustody(ctx, p) == old(sharesOutsideCustody(ctx, p))
+//@ forall d Str
+//@ ensures C01/book-and-bank-in-step: err == nil && notPoolAccount(sender, poolId) ==> reserveGap(ctx, poolId, d) == old(reserveGap(ctx, poolId, d))
+//@ ensures C01/other-pools-in-step: err == nil && p != poolId && notPoolAccount(sender, p) ==> reserveGap(ctx, p, d) == old(reserveGap(ctx, p, d))
+//@ callers-assumed callers keep the state only when this returns nil: the message handler returns the error, leveragelp propagates it or runs on a cache context (their chains are closed under C02 and C08)
 
 //@ func (Keeper).ExitPool
 //@ forall p Int
@@ -78,6 +86,11 @@ package keeper
 //@ requires sender != modAddr("commitment")
 //@ ensures C02/total-shares-track-supply: err == nil ==> shareGap(ctx, p) == old(shareGap(ctx, p))
 //@ ensures C02/burnt-shares-come-out-of-custody: err == nil ==> sharesOutsideCustody(ctx, p) == old(sharesOutsideCustody(ctx, p))
+//@ forall d Str
+//@ assumes uniqueAssetDenoms(ammPoolRow(ctx, poolId))
+//@ ensures C01/book-and-bank-in-step-unless-the-asset-is-drained: err == nil && notPoolAccount(sender, poolId) && old(reserveOf(ammPoolRow(ctx, poolId), d)) != amt(exitCoins, d) ==> reserveGap(ctx, poolId, d) == old(reserveGap(ctx, poolId, d))
+//@ ensures C01/other-pools-in-step: err == nil && p != poolId && notPoolAccount(sender, p) ==> reserveGap(ctx, p, d) == old(reserveGap(ctx, p, d))
+//@ callers-assumed callers keep the state only when this returns nil: the message handler returns the error, leveragelp propagates it or runs on a cache context (their chains are closed under C02 and C08)
 
 // ---- C08 (leveragelp AddPool): a stored amm pool sits under its own id --------------------------------
 //@ rowinv C08/ammPoolKey table amm:types.KeyPrefix/types.PoolKey row types.Pool : row.PoolId == key1
@@ -86,7 +99,7 @@ package keeper
 //@ rowinv C02/ammPoolAddresses table amm:types.KeyPrefix/types.PoolKey row types.Pool : poolWF(row)
 //@ func (Keeper).SetPool
 //@ requires poolWF(pool)
-//@ ensures C08,C02/stored-under-its-id: true
+//@ ensures C08,C02,C01/stored-under-its-id: true
 
 // Exit estimation (query path used for position health): reads pools, prices and snapshots only.
 //@ func (Keeper).ExitPoolEst
@@ -98,6 +111,11 @@ package keeper
 //@ define ammPoolRow(ctx, p) := row(ctx, "amm:types.KeyPrefix/types.PoolKey", "types.Pool", "Pool/value/", p)
 //@ define shareGap(ctx, p) := ite(ammPoolHas(ctx, p), ammPoolRow(ctx, p).TotalShares.Amount, 0) - supply(ctx, types.GetPoolShareDenom(p))
 //@ define sharesOutsideCustody(ctx, p) := supply(ctx, types.GetPoolShareDenom(p)) - bal(ctx, modAddr("commitment"), types.GetPoolShareDenom(p))
+
+// ---- C01: the reserve a pool reports for a denom equals the bank balance at the pool's address ---------
+//@ define reserveGap(ctx, p, d) := ite(ammPoolHas(ctx, p), reserveOf(ammPoolRow(ctx, p), d), 0) - bal(ctx, types.NewPoolAddress(p), d)
+//@ define reservesCurrent(ctx, pool, d) := reserveOf(pool, d) == reserveOf(ammPoolRow(ctx, pool.PoolId), d)
+//@ define notPoolAccount(a, p) := a != types.NewPoolAddress(p)
 
 // The pool object a function works on is the stored pool as far as shares go.
 //@ define poolCurrent(ctx, pool) := ammPoolHas(ctx, pool.PoolId) && pool.TotalShares.Amount == ammPoolRow(ctx, pool.PoolId).TotalShares.Amount && poolWF(pool)
@@ -111,6 +129,10 @@ package keeper
 //@ requires ammPoolHas(ctx, pool.PoolId) && pool.TotalShares.Amount == ammPoolRow(ctx, pool.PoolId).TotalShares.Amount + numShares
 //@ ensures C02/total-shares-track-supply: err == nil ==> shareGap(ctx, p) == old(shareGap(ctx, p))
 //@ ensures C02/minted-shares-go-into-custody: err == nil ==> sharesOutsideCustody(ctx, p) == old(sharesOutsideCustody(ctx, p))
+//@ forall d Str
+//@ requires reserveOf(pool, d) == reserveOf(ammPoolRow(ctx, pool.PoolId), d) + amt(joinCoins, d)
+//@ ensures C01/book-and-bank-in-step: err == nil && notPoolAccount(joiner, pool.PoolId) ==> reserveGap(ctx, pool.PoolId, d) == old(reserveGap(ctx, pool.PoolId, d))
+//@ ensures C01/other-pools-in-step: err == nil && p != pool.PoolId && notPoolAccount(joiner, p) ==> reserveGap(ctx, p, d) == old(reserveGap(ctx, p, d))
 
 //@ func (Keeper).GetAccountedPoolSnapshotOrSet
 //@ modifies table:amm~:types.KeyPrefix/types.PoolKey
@@ -129,6 +151,11 @@ package keeper
 //@ requires ammPoolHas(ctx, pool.PoolId) && pool.TotalShares.Amount == ammPoolRow(ctx, pool.PoolId).TotalShares.Amount - numShares
 //@ ensures C02/total-shares-track-supply: err == nil ==> shareGap(ctx, p) == old(shareGap(ctx, p))
 //@ ensures C02/burnt-shares-come-out-of-custody: err == nil ==> sharesOutsideCustody(ctx, p) == old(sharesOutsideCustody(ctx, p))
+//@ forall d Str
+// (An asset the exit would drain completely is the one case the type-level exit does not book: see DESIGN.md A.6.)
+//@ requires reserveOf(ammPoolRow(ctx, pool.PoolId), d) != amt(exitCoins, d) ==> reserveOf(pool, d) == reserveOf(ammPoolRow(ctx, pool.PoolId), d) - amt(exitCoins, d)
+//@ ensures C01/book-and-bank-in-step-unless-the-asset-is-drained: err == nil && notPoolAccount(exiter, pool.PoolId) && old(reserveOf(ammPoolRow(ctx, pool.PoolId), d)) != amt(exitCoins, d) ==> reserveGap(ctx, pool.PoolId, d) == old(reserveGap(ctx, pool.PoolId, d))
+//@ ensures C01/other-pools-in-step: err == nil && p != pool.PoolId && notPoolAccount(exiter, p) ==> reserveGap(ctx, p, d) == old(reserveGap(ctx, p, d))
 
 // The id for a new pool is one above the highest stored id (reverse iteration over big-endian
 // keys): nothing is stored there. Trusted: store iterator order.
@@ -144,6 +171,9 @@ package keeper
 //@ requires sender != modAddr("commitment") && poolWF(pool) && !ammPoolHas(ctx, pool.PoolId)
 //@ ensures C02/total-shares-track-supply: err == nil ==> shareGap(ctx, p) == old(shareGap(ctx, p))
 //@ ensures C02/minted-shares-go-into-custody: err == nil ==> sharesOutsideCustody(ctx, p) == old(sharesOutsideCustody(ctx, p))
+//@ forall d Str
+//@ ensures C01/new-pool-books-its-assets: err == nil ==> reserveGap(ctx, pool.PoolId, d) == old(reserveGap(ctx, pool.PoolId, d)) + reserveOf(pool, d)
+//@ ensures C01/other-pools-in-step: err == nil && p != pool.PoolId && notPoolAccount(sender, p) ==> reserveGap(ctx, p, d) == old(reserveGap(ctx, p, d))
 
 //@ func (Keeper).CreatePool
 //@ forall p Int
@@ -152,6 +182,10 @@ package keeper
 //@ assumes unbech32(msg.Sender) != modAddr("commitment")
 //@ ensures C02/total-shares-track-supply: err == nil ==> shareGap(ctx, p) == old(shareGap(ctx, p))
 //@ ensures C02/minted-shares-go-into-custody: err == nil ==> sharesOutsideCustody(ctx, p) == old(sharesOutsideCustody(ctx, p))
+//@ forall d Str
+//@ callers-assumed the message handler returns the error
+//@ ensures C01/other-pools-in-step: err == nil && p != result0 && notPoolAccount(unbech32(msg.Sender), p) ==> reserveGap(ctx, p, d) == old(reserveGap(ctx, p, d))
+//@ ensures C01/new-pool-in-step: err == nil ==> reserveGap(ctx, result0, d) == old(reserveGap(ctx, result0, d))
 
 // Reserve updates of swaps and of perpetual transfers pass the pool object they hold back to the
 // store: it must carry the stored share total.
@@ -160,16 +194,26 @@ package keeper
 //@ requires poolCurrent(ctx, pool)
 //@ ensures C02/total-shares-move-by-the-stated-shares: err == nil ==> shareGap(ctx, p) == old(shareGap(ctx, p)) + ite(p == pool.PoolId, addShares, 0)
 //@ ensures C02/pool-object-still-current: err == nil ==> pool.TotalShares.Amount == ammPoolRow(ctx, pool.PoolId).TotalShares.Amount && ammPoolHas(ctx, pool.PoolId) && poolWF(pool)
+//@ forall d Str
+//@ requires reservesCurrent(ctx, pool, d)
+//@ ensures C01/book-up-by-the-coins: err == nil ==> reserveGap(ctx, pool.PoolId, d) == old(reserveGap(ctx, pool.PoolId, d)) + amt(coins, d)
+//@ ensures C01/other-pools-untouched: err == nil && p != pool.PoolId ==> reserveGap(ctx, p, d) == old(reserveGap(ctx, p, d))
+//@ ensures C01/pool-object-reserves-still-current: err == nil ==> reservesCurrent(ctx, pool, d)
 
 //@ func (Keeper).RemoveFromPoolBalanceAndUpdateLiquidity
 //@ forall p Int
 //@ requires poolCurrent(ctx, pool)
 //@ ensures C02/total-shares-move-by-the-stated-shares: err == nil ==> shareGap(ctx, p) == old(shareGap(ctx, p)) - ite(p == pool.PoolId, removeShares, 0)
 //@ ensures C02/pool-object-still-current: err == nil ==> pool.TotalShares.Amount == ammPoolRow(ctx, pool.PoolId).TotalShares.Amount && ammPoolHas(ctx, pool.PoolId) && poolWF(pool)
+//@ forall d Str
+//@ requires reservesCurrent(ctx, pool, d)
+//@ ensures C01/book-down-by-the-coins: err == nil ==> reserveGap(ctx, pool.PoolId, d) == old(reserveGap(ctx, pool.PoolId, d)) - amt(coins, d)
+//@ ensures C01/other-pools-untouched: err == nil && p != pool.PoolId ==> reserveGap(ctx, p, d) == old(reserveGap(ctx, p, d))
+//@ ensures C01/pool-object-reserves-still-current: err == nil ==> reservesCurrent(ctx, pool, d)
 
 //@ func (Keeper).RemovePool
 //@ inline
-//@ ensures C02/removes-the-pool-row: !ammPoolHas(ctx, poolId)
+//@ ensures C02,C01/removes-the-pool-row: !ammPoolHas(ctx, poolId)
 
 // Transaction signers are user accounts, never the commitment module account (T6).
 //@ func (msgServer).JoinPool
@@ -212,10 +256,18 @@ package keeper
 //@ ensures C04/third-parties-untouched: isUser(a) && a != sender && a != recipient ==> bal(ctx, a, d) == old(bal(ctx, a, d))
 //@ ensures C04/only-the-two-denoms-move: isUser(a) && d != tokenIn.Denom && d != tokenOut.Denom ==> bal(ctx, a, d) == old(bal(ctx, a, d))
 //@ ensures C04/sides-do-not-cross: isUser(sender) && isUser(recipient) && sender != recipient && tokenIn.Denom != tokenOut.Denom ==> bal(ctx, sender, tokenOut.Denom) == old(bal(ctx, sender, tokenOut.Denom)) && bal(ctx, recipient, tokenIn.Denom) == old(bal(ctx, recipient, tokenIn.Denom))
+//@ modifies elems:pool.PoolAssets
+//@ requires reservesCurrent(ctx, pool, d)
+//@ ensures C01/book-and-bank-in-step: err == nil && notPoolAccount(sender, pool.PoolId) && notPoolAccount(recipient, pool.PoolId) ==> reserveGap(ctx, pool.PoolId, d) == old(reserveGap(ctx, pool.PoolId, d))
+//@ ensures C01/other-pools-in-step: err == nil && p != pool.PoolId && notPoolAccount(sender, p) && notPoolAccount(recipient, p) ==> reserveGap(ctx, p, d) == old(reserveGap(ctx, p, d))
+//@ ensures C01/pool-object-reserves-still-current: err == nil ==> reservesCurrent(ctx, pool, d)
 
 //@ func (Keeper).UpdatePoolParams
 //@ forall p Int
 //@ ensures C02/total-shares-track-supply: err == nil ==> shareGap(ctx, p) == old(shareGap(ctx, p))
+//@ forall d Str
+//@ ensures C01/reserves-untouched: err == nil ==> reserveGap(ctx, p, d) == old(reserveGap(ctx, p, d))
+//@ callers-assumed the message handler returns the error
 
 //@ func (msgServer).UpdatePoolParams
 //@ entry
@@ -228,6 +280,8 @@ package keeper
 //@ bound Liquidity 2
 //@ decabstract
 //@ ensures C02/total-shares-track-supply: err == nil ==> shareGap(goCtx, p) == old(shareGap(goCtx, p))
+//@ forall d Str
+//@ ensures C01/reserves-untouched: err == nil ==> reserveGap(goCtx, p, d) == old(reserveGap(goCtx, p, d))
 
 // Fee conversion: swaps the collected fee in the same pool on a cache context (kept only when it
 // succeeds); share totals are not involved.
@@ -241,6 +295,15 @@ package keeper
 //@ forall a Addr
 //@ forall d Str
 //@ ensures C04/third-parties-untouched: isUser(a) ==> bal(ctx, a, d) == old(bal(ctx, a, d))
+//@ modifies elems:pool.PoolAssets
+//@ requires reservesCurrent(ctx, pool, d)
+//@ ensures C01/book-and-bank-in-step: reserveGap(ctx, pool.PoolId, d) == old(reserveGap(ctx, pool.PoolId, d))
+//@ ensures C01/other-pools-in-step: p != pool.PoolId ==> reserveGap(ctx, p, d) == old(reserveGap(ctx, p, d))
+// ASSUMED, not proved: the fee conversion runs on a cache context that is dropped when it fails, but
+// it works on a copy of the pool object that shares the reserves' backing array with the caller, so
+// a conversion failing after its first reserve update would leave the caller's pool object changed.
+// No history reaching that was found (see DESIGN.md A.6); the clause is used, not established.
+//@ assumed-ensures C01/pool-object-reserves-still-current: reservesCurrent(ctx, pool, d)
 
 //@ func (Keeper).SwapFeesToRevenueToken
 //@ forall p Int
@@ -252,10 +315,19 @@ package keeper
 //@ forall a Addr
 //@ forall d Str
 //@ ensures C04/third-parties-untouched: isUser(a) ==> bal(ctx, a, d) == old(bal(ctx, a, d))
+//@ modifies elems:pool.PoolAssets
+//@ requires reservesCurrent(ctx, pool, d)
+//@ ensures C01/book-and-bank-in-step: err == nil ==> reserveGap(ctx, pool.PoolId, d) == old(reserveGap(ctx, pool.PoolId, d))
+//@ ensures C01/other-pools-in-step: err == nil && p != pool.PoolId ==> reserveGap(ctx, p, d) == old(reserveGap(ctx, p, d))
+//@ ensures C01/pool-object-reserves-still-current: err == nil ==> reservesCurrent(ctx, pool, d)
 
+// Recomputes the external-liquidity ratios only: the token amounts are copied over unchanged.
 //@ func (Keeper).GetExternalLiquidityRatio
+//@ forall d Str
+//@ decabstract
 //@ modifies nothing
-//@ frame-only
+//@ ensures C02/read-only: true
+//@ ensures C01/amounts-copied-over: result1 == nil ==> sumOver(result0, a, ite(a.Token.Denom == d, a.Token.Amount, 0)) == reserveOf(pool, d)
 
 //@ func (Keeper).TrackWeightBreakingSlippage
 //@ modifies table:amm:str/types.WeightAndSlippageFeeKey
@@ -264,6 +336,7 @@ package keeper
 // Rewrites a pool row in the pre-v7 layout; used by the v7 store migration only.
 //@ func (Keeper).SetLegacyPool
 //@ migration-only
+//@ ensures C02,C01/migration-only: true
 
 // One hop of a swap: prices on the pool object, then settles through UpdatePoolForSwap. Shares and
 // supplies are never involved, whatever the outcome.
@@ -281,6 +354,10 @@ package keeper
 //@ ensures C04/only-the-two-denoms-move: isUser(a) && d != tokenIn.Denom && d != tokenOutDenom ==> bal(ctx, a, d) == old(bal(ctx, a, d))
 //@ ensures C04/sides-do-not-cross: isUser(sender) && isUser(recipient) && sender != recipient ==> bal(ctx, sender, tokenOutDenom) == old(bal(ctx, sender, tokenOutDenom)) && bal(ctx, recipient, tokenIn.Denom) == old(bal(ctx, recipient, tokenIn.Denom))
 //@ ensures C04/denoms-differ: err == nil ==> tokenIn.Denom != tokenOutDenom
+//@ modifies elems:pool.PoolAssets
+//@ requires reservesCurrent(ctx, pool, d)
+//@ ensures C01/book-and-bank-in-step: err == nil && notPoolAccount(sender, pool.PoolId) && notPoolAccount(recipient, pool.PoolId) ==> reserveGap(ctx, pool.PoolId, d) == old(reserveGap(ctx, pool.PoolId, d))
+//@ ensures C01/other-pools-in-step: err == nil && p != pool.PoolId && notPoolAccount(sender, p) && notPoolAccount(recipient, p) ==> reserveGap(ctx, p, d) == old(reserveGap(ctx, p, d))
 
 //@ func (Keeper).InternalSwapExactAmountOut
 //@ instances sender, recipient, tokenInDenom, tokenOut.Denom
@@ -296,13 +373,19 @@ package keeper
 //@ ensures C04/only-the-two-denoms-move: isUser(a) && d != tokenInDenom && d != tokenOut.Denom ==> bal(ctx, a, d) == old(bal(ctx, a, d))
 //@ ensures C04/sides-do-not-cross: isUser(sender) && isUser(recipient) && sender != recipient ==> bal(ctx, sender, tokenOut.Denom) == old(bal(ctx, sender, tokenOut.Denom)) && bal(ctx, recipient, tokenInDenom) == old(bal(ctx, recipient, tokenInDenom))
 //@ ensures C04/denoms-differ: err == nil ==> tokenInDenom != tokenOut.Denom
+//@ modifies elems:pool.PoolAssets
+//@ requires reservesCurrent(ctx, pool, d)
+//@ ensures C01/book-and-bank-in-step: err == nil && notPoolAccount(sender, pool.PoolId) && notPoolAccount(recipient, pool.PoolId) ==> reserveGap(ctx, pool.PoolId, d) == old(reserveGap(ctx, pool.PoolId, d))
+//@ ensures C01/other-pools-in-step: err == nil && p != pool.PoolId && notPoolAccount(sender, p) && notPoolAccount(recipient, p) ==> reserveGap(ctx, p, d) == old(reserveGap(ctx, p, d))
 
 // The pool with the highest TVL among the stored pools holding the denoms. Trusted: it is one of
 // the rows GetAllPool has just read.
 //@ func (Keeper).GetBestPoolWithDenoms
 //@ modifies nothing
 //@ trusted
+//@ forall d Str
 //@ ensures C02/returns-a-stored-pool: found ==> poolCurrent(ctx, pool)
+//@ ensures C01/returns-a-stored-pool: found ==> reservesCurrent(ctx, pool, d)
 
 //@ func (Keeper).TrackSlippage
 //@ modifies table:amm:str/types.OraclePoolSlippageTrackKey
@@ -333,3 +416,4 @@ package keeper
 //@ modifies world
 //@ callers C04/applied-only-by-the-end-block-batch: (Keeper).ExecuteSwapRequests
 //@ havoc-only
+
